@@ -170,6 +170,44 @@ def resolve(chk, rid, maps, order, cats, lo_all, hi_all, label=''):
             chk.ok(rid, inst, sm.loc, detail={'versions': hi - lo + 1, 'columns': len(cols)})
 
 
+def accessor_types(prog, chk, B10):
+    """Every per-column getter returns, and every setter takes, the type of the row field it
+    corresponds to.  A getter that returns std::optional<T> for a field of type T can say "absent"
+    for a stored NULL where get() has to invent a value (the epoch), so the two disagree."""
+    n = 0
+    for cls, (table, record) in TABLES.items():
+        r = prog.records.get(record)
+        if r is None:
+            continue
+        ft = {f.get('name'): (f.get('type') or '') for f in r.fields}
+
+        def norm(t):
+            return re.sub(r'\bconst\b|&|\s+', '', program.norm_type_name(t or ''))
+        for f in table_functions(prog, cls):
+            if f.cls is None:
+                continue
+            x = f.name[4:]
+            if x not in ft:
+                continue
+            if f.name.startswith('get_') and len(f.params) == 1:
+                acc, what = f.ret or '', 'returns'
+            elif f.name.startswith('set_') and len(f.params) == 2:
+                acc, what = f.params[1].get('type') or '', 'takes'
+            else:
+                continue
+            n += 1
+            inst = '%s::%s %s the type of row field %s' % (cls, f.name, what, x)
+            if norm(acc) == norm(ft[x]):
+                chk.ok(B10, inst, locstr(f.node))
+            else:
+                chk.violation(B10, '%s::%s|%s vs field %s' % (cls, f.name, norm(acc), norm(ft[x])), locstr(f.node),
+                              '%s: not so - it %s %s while %s.%s is %s: for a stored NULL the accessor says "absent" '
+                              'and the row read by get() carries an invented value (or the reverse), so getter and row '
+                              'disagree' % (inst, what, acc.strip(), record.split('::')[-1], x, ft[x].strip()))
+    if n < 50:
+        chk.fail_broken('B10: only %d accessor / field pairs found' % n)
+
+
 def run(tier='quick'):
     prog = program.load()
     cg = callgraph.get(prog)
@@ -227,6 +265,9 @@ def run(tier='quick'):
     _row_existence(prog, cg, eff, chk, B5)
     _lookup_keys(prog, cg, eff, chk, B7, order, cats, lo2, hi2)
     chk.extra['statements'] = len(all_maps)
+    B10 = chk.rule('B10', 'every per-column getter returns and every setter takes the type of the row field it '
+                          'corresponds to', floor=50)
+    accessor_types(prog, chk, B10)
     B9 = chk.rule('B9', 'row identifiers stay 64 bits wide on their way through the table API: every parameter bound '
                         'against an identifier column (directly or through a callee), every lambda parameter that '
                         'receives one, and the constructors / id() of the handle classes', floor=100)
